@@ -73,6 +73,8 @@ type Result struct {
 	Interleaved bool             `json:"interleaved,omitempty"`
 }
 
+var traceN int
+
 func runPlan(t *testing.T, sc *Scenario, plan *Plan, ch *simrt.Choices) (res Result) {
 	var w *World
 	var run *simrt.Run
@@ -97,6 +99,9 @@ func runPlan(t *testing.T, sc *Scenario, plan *Plan, ch *simrt.Choices) (res Res
 				StayPermille: plan.Sim.Stay, PoolMissPermille: plan.Sim.PoolMiss, Strategy: plan.Sim.Strategy,
 				PCTDepth: plan.Sim.PCTDepth, StarveSite: plan.Sim.Starve, EntryMask: plan.Sim.EntryMask,
 			}
+			if os.Getenv("VERIF_TRACE") != "" {
+				opt.TraceCap = 1 << 22
+			}
 			run = simrt.Execute(opt, func() { sc.Main(w) })
 		})
 	}()
@@ -106,6 +111,10 @@ func runPlan(t *testing.T, sc *Scenario, plan *Plan, ch *simrt.Choices) (res Res
 			res.Infra = "run did not start"
 		}
 		return
+	}
+	if tf := os.Getenv("VERIF_TRACE"); tf != "" {
+		traceN++
+		os.WriteFile(fmt.Sprintf("%s.%d", tf, traceN), []byte(strings.Join(run.Trace, "\n")), 0o644)
 	}
 	res.Hash = fmt.Sprintf("%016x", run.Hash)
 	res.Steps, res.Switches, res.Draws = run.Steps, run.Switches, ch.Draws
